@@ -233,6 +233,8 @@ theorem exec_del (M : List Cell) (hs : SortedNum (allNum M)) (μ : List Bool)
 
 /-! ### The mask invariant -/
 
+attribute [-simp] List.getD_eq_getElem?_getD
+
 /-- `J`: new-only cells already inserted; `K`: old-only cells already deleted (by a move or a
 delete).  Pins the mask down completely. -/
 structure MInv (M : List Cell) (J K : List Nat) (μ : List Bool) : Prop where
@@ -245,11 +247,11 @@ structure MInv (M : List Cell) (J K : List Nat) (μ : List Bool) : Prop where
 
 theorem oldMask_getD (M : List Cell) (i : Nat) (hi : i < M.length) :
     (oldMask M).getD i false = (M.getD i default).old := by
-  simp [oldMask, hi]
+  simp [oldMask, hi, List.getD_eq_getElem?_getD]
 
 theorem newMask_getD (M : List Cell) (i : Nat) (hi : i < M.length) :
     (newMask M).getD i false = (M.getD i default).new := by
-  simp [newMask, hi]
+  simp [newMask, hi, List.getD_eq_getElem?_getD]
 
 theorem minv_init (M : List Cell) : MInv M [] [] (oldMask M) where
   len := by simp [oldMask]
@@ -299,22 +301,24 @@ theorem minv_add {M : List Cell} {J K : List Nat} {μ : List Bool} (h : MInv M J
     rw [getD_set, List.mem_cons]
     have hjl : j < μ.length := by rw [h.len]; exact (mem_addIdx.mp hj).1
     by_cases hij : j = i
-    · simp [hij, hjl] ; simpa [hij] using hjl
+    · subst hij; simp only [hjl, and_self, if_true, true_or]
     · have : i ≠ j := fun e => hij e.symm
-      simp [hij, this, h.newO i hi]
+      simp only [hij, false_and, if_false, this, false_or]; exact h.newO i hi
   oldO := by
     intro i hi
     have hij : j ≠ i := add_del_ne hj hi
     rw [getD_set]
-    simp only [hij, false_and, if_false, h.oldO i hi, List.exists_mem_cons_iff] 
+    simp only [hij, false_and, if_false]
+    rw [h.oldO i hi]
     constructor
-    · rintro (h1 | h1)
+    · rintro (h1 | ⟨j', hj', hm⟩)
       · exact Or.inl h1
-      · exact Or.inr (Or.inr h1)
-    · rintro (h1 | h1 | h1)
+      · exact Or.inr ⟨j', List.mem_cons_of_mem _ hj', hm⟩
+    · rintro (h1 | ⟨j', hj', hm⟩)
       · exact Or.inl h1
-      · exact Or.inl (hk i hi h1.symm)
-      · exact Or.inr h1
+      · rcases List.mem_cons.mp hj' with rfl | hj''
+        · exact Or.inl (hk i hi hm.symm)
+        · exact Or.inr ⟨j', hj'', hm⟩
 
 theorem minv_del {M : List Cell} {J K : List Nat} {μ : List Bool} (h : MInv M J K μ) {d : Nat}
     (hd : d ∈ delIdx M) : MInv M J (d :: K) (μ.set d false) where
@@ -358,12 +362,436 @@ theorem minv_clash {M : List Cell} {J K : List Nat} {μ : List Bool} (h : MInv M
     have hij : i = j := new_mkey_inj M hnn hi hjl hn hjn.1 hk
     subst hij
     exact hjJ ((h.newO i hj).mp hm)
-  · have hc : M.getD i default = M[i] := by simp [hi]
+  · have hc : M.getD i default = M[i] := by simp [hi, List.getD_eq_getElem?_getD]
     have := (List.all_eq_true.mp hjunk) M[i] (List.getElem_mem _)
     rw [← hc] at this
     refine mem_delIdx.mpr ⟨hi, ?_⟩
     simp only [Bool.not_eq_true] at hn
     simp [hn] at this
     simp [Cell.oldOnly, hn, this]
+
+/-! ### The two phases -/
+
+/-- What the planner sends for new-only cell `j` if no move is suppressed. -/
+def cellOps (M : List Cell) (j : Nat) : List IOp := itemOps M (newItem M j, false)
+
+theorem numOf_old (M : List Cell) (i : Nat) (ho : (M.getD i default).old = true) :
+    numOf M i = (countOld M i + 1) * 10000 := by simp [numOf, ho]
+
+theorem add_phase (M : List Cell) (hs : SortedNum (allNum M))
+    (hno : ((olds M).map (·.mkey)).Nodup) (hnn : ((news M).map (·.mkey)).Nodup)
+    (hjunk : noJunk M = true) (js : List Nat) (hjs : ∀ j ∈ js, j ∈ addIdx M) (hnd : js.Nodup)
+    (J K : List Nat) (μ : List Bool) (h : MInv M J K μ) (hdisj : ∀ j ∈ js, j ∉ J)
+    (hK : ∀ d ∈ K, ∃ j ∈ J, (M.getD j default).line.mkey = (M.getD d default).line.mkey) :
+    ∃ μ' K', iosExec (numbered M μ) (js.flatMap (cellOps M)) = some (numbered M μ') ∧
+      MInv M (js.reverse ++ J) K' μ' ∧
+      (∀ d ∈ K', ∃ j ∈ js.reverse ++ J,
+        (M.getD j default).line.mkey = (M.getD d default).line.mkey) := by
+  induction js generalizing J K μ with
+  | nil => exact ⟨μ, K, by simp [iosExec], by simpa using h, by simpa using hK⟩
+  | cons j js ih =>
+    have hj : j ∈ addIdx M := hjs j List.mem_cons_self
+    have hjJ : j ∉ J := hdisj j List.mem_cons_self
+    obtain ⟨hjl, hjn⟩ := mem_addIdx.mp hj
+    obtain ⟨hjjs, hnd'⟩ := List.nodup_cons.mp hnd
+    have hjs' : ∀ j' ∈ js, j' ∈ addIdx M := fun j' hj' => hjs j' (List.mem_cons_of_mem _ hj')
+    have hdisj' : ∀ j' ∈ js, j' ∉ j :: J := by
+      intro j' hj' hmem
+      rcases List.mem_cons.mp hmem with rfl | hmem
+      · exact hjjs hj'
+      · exact hdisj j' (List.mem_cons_of_mem _ hj') hmem
+    have hrev : (j :: js).reverse ++ J = js.reverse ++ (j :: J) := by simp
+    rw [List.flatMap_cons, iosExec_append, hrev]
+    have hfj : μ.getD j false = false := by
+      cases hv : μ.getD j false with
+      | false => rfl
+      | true => exact absurd ((h.newO j hj).mp hv) hjJ
+    cases hl : delLookup M (M.getD j default).line.mkey with
+    | none =>
+      have hops : cellOps M j = [IOp.add (numOf M j) (M.getD j default).line] := by
+        simp [cellOps, itemOps, newItem, iosDelLookup, hl]
+      have hex := exec_add M hs μ h.len j hjl hfj (by
+        intro i hi hm hk
+        exact delLookup_none hl i (minv_clash h hnn hjunk hj hjJ hi hm hk) hk)
+      have hinv : MInv M (j :: J) K (μ.set j true) :=
+        minv_add h hj (fun i hi hk => absurd hk (delLookup_none hl i hi))
+      rw [hops]
+      simp only [iosExec, List.foldlM_cons, List.foldlM_nil, iosExec1, hex, bind_pure, Option.bind_some]
+      exact ih hjs' hnd' (j :: J) K _ hinv hdisj' (by
+        intro d hd
+        obtain ⟨j', hj', hm⟩ := hK d hd
+        exact ⟨j', List.mem_cons_of_mem _ hj', hm⟩)
+    | some d =>
+      obtain ⟨hd, hdm⟩ := delLookup_some hl
+      obtain ⟨hdl, hdo⟩ := mem_delIdx.mp hd
+      simp only [Cell.oldOnly, Bool.and_eq_true] at hdo
+      have hops : cellOps M j = [IOp.move (numOf M d) (numOf M j) (M.getD j default).line] := by
+        simp [cellOps, itemOps, newItem, iosDelLookup, hl, numOf_old M d hdo.1]
+      have huniq : ∀ i ∈ delIdx M,
+          (M.getD i default).line.mkey = (M.getD j default).line.mkey → i = d := by
+        intro i hi hk
+        have := delLookup_of M hno hi
+        rw [hk, hl] at this
+        exact (Option.some.inj this).symm
+      have htd : μ.getD d false = true := by
+        cases hv : μ.getD d false with
+        | true => rfl
+        | false =>
+          exfalso
+          have hex : ∃ j' ∈ J, (M.getD j' default).line.mkey = (M.getD d default).line.mkey := by
+            rcases (h.oldO d hd).mp hv with hk | hk
+            · exact hK d hk
+            · exact hk
+          obtain ⟨j', hj', hm⟩ := hex
+          obtain ⟨hjl', hjn'⟩ := mem_addIdx.mp (h.jsub j' hj')
+          simp only [Cell.newOnly, Bool.and_eq_true] at hjn hjn'
+          have := new_mkey_inj M hnn hjl' hjl hjn'.1 hjn.1 (by rw [hm, hdm])
+          subst this
+          exact hjJ hj'
+      have hex1 := exec_del M hs μ h.len d hdl htd
+      have hinv1 : MInv M J (d :: K) (μ.set d false) := minv_del h hd
+      have hfj1 : (μ.set d false).getD j false = false := by
+        cases hv : (μ.set d false).getD j false with
+        | false => rfl
+        | true => exact absurd ((hinv1.newO j hj).mp hv) hjJ
+      have hex2 := exec_add M hs (μ.set d false) hinv1.len j hjl hfj1 (by
+        intro i hi hm hk
+        have hi' := minv_clash hinv1 hnn hjunk hj hjJ hi hm hk
+        have := huniq i hi' hk
+        subst this
+        have := (hinv1.oldO i hi').mpr (Or.inl List.mem_cons_self)
+        rw [this] at hm
+        exact Bool.noConfusion hm)
+      have hinv2 : MInv M (j :: J) (d :: K) ((μ.set d false).set j true) :=
+        minv_add hinv1 hj (fun i hi hk => by rw [huniq i hi hk]; exact List.mem_cons_self)
+      rw [hops]
+      simp only [iosExec, List.foldlM_cons, List.foldlM_nil, iosExec1, hex1, hex2, bind_pure,
+        Option.bind_some]
+      exact ih hjs' hnd' (j :: J) (d :: K) _ hinv2 hdisj' (by
+        intro d' hd'
+        rcases List.mem_cons.mp hd' with rfl | hd'
+        · exact ⟨j, List.mem_cons_self, hdm.symm⟩
+        · obtain ⟨j', hj', hm⟩ := hK d' hd'
+          exact ⟨j', List.mem_cons_of_mem _ hj', hm⟩)
+
+theorem del_phase (M : List Cell) (hs : SortedNum (allNum M)) (is : List Nat)
+    (his : ∀ i ∈ is, i ∈ delIdx M) (hnd : is.Nodup) (J K : List Nat) (μ : List Bool)
+    (h : MInv M J K μ) (htrue : ∀ i ∈ is, μ.getD i false = true) :
+    ∃ μ', iosExec (numbered M μ) (is.map fun i => IOp.del (numOf M i)) = some (numbered M μ') ∧
+      MInv M J (is.reverse ++ K) μ' := by
+  induction is generalizing K μ with
+  | nil => exact ⟨μ, by simp [iosExec], by simpa using h⟩
+  | cons i is ih =>
+    have hi := his i List.mem_cons_self
+    obtain ⟨hiis, hnd'⟩ := List.nodup_cons.mp hnd
+    have hex := exec_del M hs μ h.len i (mem_delIdx.mp hi).1 (htrue i List.mem_cons_self)
+    have hinv := minv_del (K := K) h hi
+    have hrev : (i :: is).reverse ++ K = is.reverse ++ (i :: K) := by simp
+    rw [hrev, List.map_cons, iosExec_cons]
+    simp only [iosExec1, hex, Option.bind_some]
+    apply ih (fun i' hi' => his i' (List.mem_cons_of_mem _ hi')) hnd' _ _ hinv
+    intro i' hi'
+    rw [getD_set]
+    have : i ≠ i' := by intro e; subst e; exact hiis hi'
+    simp only [this, false_and, if_false]
+    exact htrue i' (List.mem_cons_of_mem _ hi')
+
+theorem minv_final {M : List Cell} {J K : List Nat} {μ : List Bool} (h : MInv M J K μ)
+    (hjunk : noJunk M = true) (hJ : ∀ j ∈ addIdx M, j ∈ J)
+    (hK : ∀ i ∈ delIdx M, i ∈ K ∨
+      ∃ j ∈ J, (M.getD j default).line.mkey = (M.getD i default).line.mkey) :
+    μ = newMask M := by
+  apply List.ext_getElem
+  · simp [newMask, h.len]
+  · intro i h1 h2
+    have hi : i < M.length := by rw [← h.len]; exact h1
+    have e1 : μ[i] = μ.getD i false := by simp [List.getD_eq_getElem?_getD, h1]
+    have e2 : (newMask M)[i] = (newMask M).getD i false := by simp [List.getD_eq_getElem?_getD, h2]
+    rw [e1, e2, newMask_getD M i hi]
+    have hc : M.getD i default = M[i] := by simp [hi, List.getD_eq_getElem?_getD]
+    have hj := (List.all_eq_true.mp hjunk) M[i] (List.getElem_mem _)
+    rw [← hc] at hj
+    cases ho : (M.getD i default).old <;> cases hn : (M.getD i default).new
+    · simp [ho, hn] at hj
+    · have hmem : i ∈ addIdx M := mem_addIdx.mpr ⟨hi, by simp [Cell.newOnly, ho, hn]⟩
+      exact (h.newO i hmem).mpr (hJ i hmem)
+    · have hmem : i ∈ delIdx M := mem_delIdx.mpr ⟨hi, by simp [Cell.oldOnly, ho, hn]⟩
+      exact (h.oldO i hmem).mpr (hK i hmem)
+    · exact h.both i hi (by simp [Cell.both, ho, hn])
+
+/-! ### The resequenced device list -/
+
+def reseqFrom (k : Nat) : List Line → IosAcl
+  | [] => []
+  | l :: ls => ((k + 1) * 10000, l) :: reseqFrom (k + 1) ls
+
+theorem iosReseq_eq_aux (s : IosAcl) (a : Nat) :
+    ((List.range' a s.length).zip s).map (fun (x : Nat × Nat × Line) => (10000 + x.1 * 10000, x.2.2)) =
+      reseqFrom a (iosLines s) := by
+  induction s generalizing a with
+  | nil => rfl
+  | cons e s ih =>
+    simp only [List.length_cons, List.range'_succ, List.zip_cons_cons, List.map_cons, iosLines,
+      reseqFrom]
+    rw [ih (a + 1)]
+    simp [iosLines, Nat.succ_mul, Nat.add_comm]
+
+theorem iosReseq_eq (dev : IosAcl) : iosReseq dev 10000 10000 = reseqFrom 0 (iosLines dev) := by
+  rw [← iosReseq_eq_aux dev 0, iosReseq, List.range_eq_range']
+
+def allNumFrom (pre M : List Cell) : IosAcl :=
+  (List.range' pre.length M.length).map fun i =>
+    (numOf (pre ++ M) i, ((pre ++ M).getD i default).line)
+
+theorem numbered_old_aux (pre M : List Cell) :
+    pick (allNumFrom pre M) (oldMask M) = reseqFrom (countOld (pre ++ M) pre.length) (olds M) := by
+  induction M generalizing pre with
+  | nil => simp [allNumFrom, oldMask, pick, olds, reseqFrom]
+  | cons c M ih =>
+    have hget : (pre ++ c :: M).getD pre.length default = c := by
+      simp [List.getD_eq_getElem?_getD]
+    have hlen : pre.length < (pre ++ c :: M).length := by simp
+    have ih' := ih (pre ++ [c])
+    have happ : pre ++ [c] ++ M = pre ++ c :: M := by simp
+    simp only [allNumFrom, happ, List.length_append, List.length_cons, List.length_nil,
+      Nat.zero_add] at ih'
+    rw [countOld_succ _ _ hlen, hget] at ih'
+    simp only [allNumFrom, List.length_cons, List.range'_succ, List.map_cons, hget, oldMask]
+    rw [olds_cons]
+    cases ho : c.old with
+    | true =>
+      simp only [ho, if_true, pick, reseqFrom] at ih' ⊢
+      rw [← ih']
+      simp [numOf, hget, ho, oldMask]
+    | false =>
+      simp only [ho, Bool.false_eq_true, if_false, pick, Nat.add_zero] at ih' ⊢
+      rw [← ih']
+      simp [oldMask]
+
+theorem numbered_oldMask (M : List Cell) : numbered M (oldMask M) = reseqFrom 0 (olds M) := by
+  have := numbered_old_aux [] M
+  simp only [List.nil_append, List.length_nil] at this
+  have h0 : countOld M 0 = 0 := by simp [countOld]
+  rw [h0] at this
+  rw [← this, numbered, allNum, allNumFrom, List.range_eq_range']
+  simp
+
+/-- The device after `ip access-list resequence NAME 10000 10000`. -/
+theorem reseq_numbered (M : List Cell) (dev : IosAcl) (hdev : iosLines dev = olds M) :
+    iosReseq dev 10000 10000 = numbered M (oldMask M) := by
+  rw [iosReseq_eq, hdev, numbered_oldMask]
+
+/-! ### Plans without suppressed moves -/
+
+def IOp.isAddMove : IOp → Bool
+  | .add _ _ => true
+  | .move _ _ _ => true
+  | _ => false
+
+def movedOf (M : List Cell) : List Nat := ((addIdx M).map (newItem M)).filterMap (lookupI M)
+
+def delsOf (M : List Cell) : List IOp :=
+  (((delIdx M).map (countOld M)).reverse.filter fun ai => !(movedOf M).contains ai).map
+    fun ai => IOp.del ((ai + 1) * 10000)
+
+theorem itemOps_length_le (M : List Cell) (x : Item × Bool) : (itemOps M x).length ≤ 1 := by
+  unfold itemOps
+  split
+  · simp
+  · split <;> simp
+
+theorem zipOps_filter_le (M : List Cell) (L : List Item) (flags : List Bool) :
+    (((L.zip flags).flatMap (itemOps M)).filter IOp.isAddMove).length ≤ L.length := by
+  induction L generalizing flags with
+  | nil => simp
+  | cons it L ih =>
+    cases flags with
+    | nil => simp
+    | cons f flags =>
+      simp only [List.zip_cons_cons, List.flatMap_cons, List.filter_append, List.length_append,
+        List.length_cons]
+      have h1 := itemOps_length_le M (it, f)
+      have h2 := List.length_filter_le IOp.isAddMove (itemOps M (it, f))
+      have := ih flags
+      omega
+
+/-- If the plan holds an `add` or `move` for every inserted line, no flag mattered. -/
+theorem flags_irrelevant (M : List Cell) (L : List Item) (flags : List Bool)
+    (hlen : flags.length = L.length)
+    (hc : (((L.zip flags).flatMap (itemOps M)).filter IOp.isAddMove).length = L.length) :
+    (L.zip flags).flatMap (itemOps M) = L.flatMap fun it => itemOps M (it, false) := by
+  induction L generalizing flags with
+  | nil => simp
+  | cons it L ih =>
+    cases flags with
+    | nil => simp at hlen
+    | cons f flags =>
+      simp only [List.zip_cons_cons, List.flatMap_cons, List.filter_append, List.length_append,
+        List.length_cons] at hc ⊢
+      have h1 := itemOps_length_le M (it, f)
+      have h2 := List.length_filter_le IOp.isAddMove (itemOps M (it, f))
+      have h3 := zipOps_filter_le M L flags
+      have hrest := ih flags (by simpa using hlen) (by omega)
+      rw [hrest]
+      congr 1
+      have hne : (itemOps M (it, f)).length = 1 := by omega
+      cases hl : iosDelLookup M it.2.mkey with
+      | none => simp [itemOps, hl]
+      | some ai =>
+        cases f with
+        | false => rfl
+        | true => simp [itemOps, hl] at hne
+
+theorem delsOf_filter (M : List Cell) : (delsOf M).filter IOp.isAddMove = [] := by
+  rw [List.filter_eq_nil_iff]
+  intro a ha
+  simp only [delsOf, List.mem_map] at ha
+  obtain ⟨i, _, rfl⟩ := ha
+  simp [IOp.isAddMove]
+
+/-- The plan when every inserted line got its command. -/
+theorem plan_no_suppr (M : List Cell) (hboth : (M.any fun c => c.old && c.new) = true)
+    (hnn : ((news M).map (·.mkey)).Nodup)
+    (hcount : ((planIOS M).filter IOp.isAddMove).length = (addIdx M).length) :
+    planIOS M = (addIdx M).flatMap (cellOps M) ++ delsOf M := by
+  obtain ⟨flags, hlen, hplan⟩ := planIOS_shape M hboth (lookups_nodup M hnn)
+  have hplan' : planIOS M =
+      (((addIdx M).map (newItem M)).zip flags).flatMap (itemOps M) ++ delsOf M := hplan
+  rw [hplan', List.filter_append, delsOf_filter, List.append_nil] at hcount
+  rw [hplan', flags_irrelevant M _ flags (by simpa using hlen) (by simpa using hcount),
+    List.flatMap_map]
+  rfl
+
+theorem flatMap_congr' {α β : Type} {l : List α} {f g : α → List β} (h : ∀ x ∈ l, f x = g x) :
+    l.flatMap f = l.flatMap g := by
+  induction l with
+  | nil => rfl
+  | cons a l ih =>
+    simp only [List.flatMap_cons]
+    rw [h a List.mem_cons_self, ih fun x hx => h x (List.mem_cons_of_mem _ hx)]
+
+/-- Without any move (no deleted line has the `mkey` of an inserted line) nothing can be suppressed. -/
+theorem plan_no_moves (M : List Cell) (hboth : (M.any fun c => c.old && c.new) = true)
+    (hnn : ((news M).map (·.mkey)).Nodup)
+    (hnm : ∀ i ∈ delIdx M, ∀ j ∈ addIdx M,
+      (M.getD i default).line.mkey ≠ (M.getD j default).line.mkey) :
+    planIOS M = (addIdx M).flatMap (cellOps M) ++ delsOf M := by
+  obtain ⟨flags, hlen, hplan⟩ := planIOS_shape M hboth (lookups_nodup M hnn)
+  have hplan' : planIOS M =
+      (((addIdx M).map (newItem M)).zip flags).flatMap (itemOps M) ++ delsOf M := hplan
+  rw [hplan']
+  congr 1
+  have hnone : ∀ j ∈ addIdx M, iosDelLookup M (M.getD j default).line.mkey = none := by
+    intro j hj
+    cases h : delLookup M (M.getD j default).line.mkey with
+    | none => simp [iosDelLookup, h]
+    | some d =>
+      obtain ⟨h1, h2⟩ := delLookup_some h
+      exact absurd h2 (hnm d h1 j hj)
+  have h1 : ∀ x ∈ ((addIdx M).map (newItem M)).zip flags, itemOps M x = itemOps M (x.1, false) := by
+    intro x hx
+    have := (List.of_mem_zip hx).1
+    obtain ⟨j, hj, hjx⟩ := List.mem_map.mp this
+    obtain ⟨x1, x2⟩ := x
+    simp only at hjx
+    subst hjx
+    simp [itemOps, newItem, hnone j hj]
+  rw [flatMap_congr' h1]
+  have h2 : (((addIdx M).map (newItem M)).zip flags).flatMap (fun x => itemOps M (x.1, false)) =
+      ((((addIdx M).map (newItem M)).zip flags).map Prod.fst).flatMap
+        (fun it => itemOps M (it, false)) := by
+    rw [List.flatMap_map]
+  rw [h2, List.map_fst_zip (by simp [hlen]), List.flatMap_map]
+  rfl
+
+/-! ### Convergence of a plan in which no move is suppressed -/
+
+theorem mem_movedOf {M : List Cell} {ai : Nat} :
+    ai ∈ movedOf M ↔ ∃ j ∈ addIdx M, iosDelLookup M (M.getD j default).line.mkey = some ai := by
+  simp [movedOf, List.mem_filterMap, lookupI, newItem]
+
+theorem delsOf_eq (M : List Cell) :
+    delsOf M = ((delIdx M).reverse.filter fun i => !(movedOf M).contains (countOld M i)).map
+      fun i => IOp.del (numOf M i) := by
+  unfold delsOf
+  rw [← List.map_reverse, List.filter_map, List.map_map]
+  apply List.map_congr_left
+  intro i hi
+  have hi' : i ∈ delIdx M := by
+    have := (List.mem_filter.mp hi).1
+    exact List.mem_reverse.mp this
+  have ho := (mem_delIdx.mp hi').2
+  simp only [Cell.oldOnly, Bool.and_eq_true] at ho
+  simp [numOf_old M i ho.1]
+
+/-- Executing "all adds / moves top-down, then the remaining deletes bottom-up" on the
+resequenced device ends in exactly the target. -/
+theorem exec_core (M : List Cell) (hjunk : noJunk M = true) (hruns : runsShort M)
+    (hno : ((olds M).map (·.mkey)).Nodup) (hnn : ((news M).map (·.mkey)).Nodup) :
+    iosExec (numbered M (oldMask M)) ((addIdx M).flatMap (cellOps M) ++ delsOf M) =
+      some (numbered M (newMask M)) := by
+  have hs := allNum_sorted M hjunk hruns
+  have haddnd : (addIdx M).Nodup := List.Nodup.sublist List.filter_sublist List.nodup_range
+  have hdelnd : (delIdx M).Nodup := List.Nodup.sublist List.filter_sublist List.nodup_range
+  obtain ⟨μ1, K1, hex1, hinv1, hK1⟩ := add_phase M hs hno hnn hjunk (addIdx M) (fun _ h => h) haddnd
+    [] [] (oldMask M) (minv_init M) (by simp) (by simp)
+  rw [iosExec_append, hex1, Option.bind_some, delsOf_eq]
+  have hJmem : ∀ j, j ∈ (addIdx M).reverse ++ [] ↔ j ∈ addIdx M := by simp
+  -- an old-only cell is looked up iff an inserted cell has its mkey
+  have hlook : ∀ i ∈ delIdx M, (countOld M i ∈ movedOf M ↔
+      ∃ j ∈ addIdx M, (M.getD j default).line.mkey = (M.getD i default).line.mkey) := by
+    intro i hi
+    rw [mem_movedOf]
+    constructor
+    · rintro ⟨j, hj, hl⟩
+      refine ⟨j, hj, ?_⟩
+      simp only [iosDelLookup, Option.map_eq_some_iff] at hl
+      obtain ⟨d, hd, hc⟩ := hl
+      obtain ⟨h1, h2⟩ := delLookup_some hd
+      obtain ⟨hdl, hdo⟩ := mem_delIdx.mp h1
+      obtain ⟨hil, hio⟩ := mem_delIdx.mp hi
+      simp only [Cell.oldOnly, Bool.and_eq_true] at hdo hio
+      have := countOld_inj M hdl hil hdo.1 hio.1 hc
+      subst this
+      exact h2.symm
+    · rintro ⟨j, hj, hm⟩
+      refine ⟨j, hj, ?_⟩
+      have := delLookup_of M hno hi
+      rw [← hm] at this
+      simp [iosDelLookup, this]
+  let is := (delIdx M).reverse.filter fun i => !(movedOf M).contains (countOld M i)
+  have his : ∀ i ∈ is, i ∈ delIdx M := fun i hi => List.mem_reverse.mp (List.mem_filter.mp hi).1
+  have hisnd : is.Nodup :=
+    List.Nodup.sublist List.filter_sublist ((List.reverse_perm _).nodup_iff.mpr hdelnd)
+  have htrue : ∀ i ∈ is, μ1.getD i false = true := by
+    intro i hi
+    have hnm : countOld M i ∉ movedOf M := by
+      have := (List.mem_filter.mp hi).2
+      simpa using this
+    cases hv : μ1.getD i false with
+    | true => rfl
+    | false =>
+      exfalso
+      apply hnm
+      rw [hlook i (his i hi)]
+      rcases (hinv1.oldO i (his i hi)).mp hv with hk | ⟨j, hj, hm⟩
+      · obtain ⟨j, hj, hm⟩ := hK1 i hk
+        exact ⟨j, (hJmem j).mp hj, hm⟩
+      · exact ⟨j, (hJmem j).mp hj, hm⟩
+  obtain ⟨μ2, hex2, hinv2⟩ := del_phase M hs is his hisnd _ K1 μ1 hinv1 htrue
+  rw [hex2]
+  congr 2
+  apply minv_final hinv2 hjunk
+  · intro j hj; exact (hJmem j).mpr hj
+  · intro i hi
+    by_cases hm : countOld M i ∈ movedOf M
+    · right
+      obtain ⟨j, hj, hm'⟩ := (hlook i hi).mp hm
+      exact ⟨j, (hJmem j).mpr hj, hm'⟩
+    · left
+      apply List.mem_append_left
+      apply List.mem_reverse.mpr
+      apply List.mem_filter.mpr
+      exact ⟨List.mem_reverse.mpr hi, by simpa using hm⟩
 
 end NA.Acl
